@@ -2,8 +2,8 @@
 
 Deliberately boring: a matrix is an ordered tuple of *taxa*; a taxon is a record
 ``(name, grp, raw, mag)`` where ``raw`` is a tuple with one entry per trait, each an
-exact ``Fraction`` or ``None`` (missing), and ``mag`` is, per trait, the largest
-column magnitude the stored representation of that cell has been computed in (it
+exact ``Fraction`` or ``None`` (missing), and ``mag`` is, per trait, the largest absolute raw value
+ever present in that column along the history (same for every taxon of the matrix; it
 only scales the rounding tolerance, see ``tol``).  Structural operations are list
 edits; per-trait summaries are evaluated in ``Fraction`` arithmetic and rounded
 once.  Nothing here imports numpy or the library.
@@ -65,15 +65,21 @@ def colmax(taxa, c):
 
 
 def settle(taxa):
-    """After an operation that (re)computes the stored representation in the context of the
-    current set of taxa: every cell's tolerance magnitude covers the current column magnitude."""
+    """Tolerance magnitude, per COLUMN: the largest absolute raw value that has ever been present in that column
+    along the history of any of its cells (operands bring the history of their own column; |location| never exceeds
+    it, explicit locations of hand-built operands are passed as extra magnitude in make()).  Every cell of a column
+    carries the same magnitude, so a cell that joins a column holding rounding residue of a large-offset past is
+    judged at that column's rounding level.  The magnitudes are part of the canonical state (see colmags)."""
     if not taxa:
         return tuple(taxa)
     t = len(taxa[0][2])
-    # the magnitude the real column can have: the raw values plus the rounding residue the cells already carry (a raw 0
-    # that went through a 1e6 context is stored as ~1e-10, and a fresh cell joining it is rounded in THAT context)
-    cm = [max([0.0] + [abs(float(tx[2][c])) + TOL * tx[3][c] for tx in taxa if tx[2][c] is not None]) for c in range(t)]
-    return tuple((tx[0], tx[1], tx[2], tuple(max(tx[3][c], cm[c]) for c in range(t))) for tx in taxa)
+    cm = [max([colmax(taxa, c)] + [tx[3][c] for tx in taxa]) for c in range(t)]
+    return tuple((tx[0], tx[1], tx[2], tuple(cm)) for tx in taxa)
+
+
+def colmags(taxa):
+    """per-column tolerance magnitudes (identical for all taxa after settle)"""
+    return tuple(taxa[0][3]) if taxa else ()
 
 
 def make(names, grps, rows, extra_mag=None):
